@@ -248,9 +248,18 @@ class Model:
         return h.hexdigest()[:16]
 
     # -- call resolution ---------------------------------------------------
-    def resolve_call(self, fi: FuncInfo, call: ast.Call) -> Optional[FuncInfo]:
-        """Resolve a call's callee to a FuncInfo in the package, if possible."""
-        return self.resolve_callee(fi, call.func)
+    def resolve_call(self, fi: FuncInfo, call: ast.Call, fuzzy: bool = False) -> Optional[FuncInfo]:
+        """Resolve a call's callee to a FuncInfo in the package, if possible.
+        fuzzy: for `obj.method(...)` with an untyped receiver, fall back to the unique method of that name in the package."""
+        r = self.resolve_callee(fi, call.func)
+        if r is None and fuzzy and isinstance(call.func, ast.Attribute):
+            name = call.func.attr
+            if name in _COMMON_METHODS or name.startswith("__"):
+                return None
+            cands = [f for m in self.modules.values() for f in m.functions.values() if f.cls and f.name == name and f.parent is None]
+            if len(cands) == 1:
+                return cands[0]
+        return r
 
     def resolve_callee(self, fi: FuncInfo, fn: ast.AST) -> Optional[FuncInfo]:
         mod = fi.module
@@ -302,6 +311,14 @@ class Model:
             if ci:
                 todo.extend(b for b in ci.bases if b in mod.classes)
         return None
+
+
+_COMMON_METHODS = {
+    "append", "add", "get", "items", "keys", "values", "update", "pop", "join", "format", "strip", "split", "startswith",
+    "endswith", "read", "write", "save", "open", "parse", "build", "rule", "info", "debug", "warning", "error", "extend",
+    "remove", "insert", "index", "count", "copy", "sort", "lower", "upper", "replace", "encode", "decode", "find", "draw",
+    "round", "apply", "create", "load", "main", "newline", "comment", "tostring", "fromstring", "match", "search",
+}
 
 
 def load_model(repo: str | os.PathLike = "/repo") -> Model:
